@@ -18,7 +18,9 @@
 (*   Injective   no two observed frames of different (c, x) are equal        *)
 (*   PrefixFree  no observed header is a prefix of another channel's header  *)
 (* DRIFT: the observed frame differs from Mux!Frame, a frame for an open     *)
-(* channel was not delivered, the sender refused.                            *)
+(* channel was not delivered, the sender refused, the channel's MTU() is not *)
+(* the inner MTU minus its own observed header length (all channels of a     *)
+(* kind share one sending mux; the verdict on MTU honesty is C09's).         *)
 (***************************************************************************)
 EXTENDS Mux, Json, IOUtils
 
@@ -91,6 +93,9 @@ TraceNext ==
                     ELSE (IF ~ev.sent THEN {"notsent"} ELSE {})
                          \cup (IF ev.sent /\ ev.frame # Frame(kind, c, ev.x) THEN {"framing"} ELSE {})
                          \cup (IF ev.sent /\ c \in open /\ disp = <<>> THEN {"undelivered"} ELSE {})
+                         \* MTU(channel) = MTU(inner) - observed header length of that channel, independent of siblings
+                         \cup (IF ev.sent /\ EndsWith(ev.frame, ev.x)
+                                  /\ ev.mtu # ev.innermtu - Len(ObsHeader(ev.frame, ev.x)) THEN {"mtu"} ELSE {})
        IN /\ (vs # {}) => PrintT(ToJson(<<"VIOL", l, ev.id, vs>>))
           /\ (drift # {}) => PrintT(ToJson(<<"DRIFT", l, ev.id, drift>>))
           /\ driftK' = IF "framing" \in drift THEN driftK \cup {kind} ELSE driftK
